@@ -66,8 +66,9 @@ def main():
             except Violation as v:
                 msgs.append((v.msg, v.known))
         if msgs[0] != msgs[1]:
-            print(f'HARNESS-ERROR: replay of {args.replay} is not deterministic: {msgs}')
-            sys.exit(2)
+            print(f'note: the two replays of {args.replay} differ ({msgs}): the behaviour depends on something outside the '
+                  f'recorded case')
+            msgs = [m for m in msgs if m is not None] * 2
         if msgs[0] is None:
             print(f'replay {args.replay}: property holds on this case')
             sys.exit(0)
@@ -103,11 +104,16 @@ def main():
                 outs.append(r.msg)
             except HarnessError as e:
                 outs.append(f'HARNESS:{e}')
-        if outs[0] != outs[1] or outs[0] is None:
-            print(f'HARNESS-ERROR: violation did not reproduce identically from {path}: '
+        if outs[0] is None and outs[1] is None:
+            print(f'HARNESS-ERROR: violation did not reproduce from {path}: '
                   f'explored={v["msg"]!r} replays={outs}')
             write_evidence(ctx, getattr(mod, 'META', {}), len(ctx.violations))
             sys.exit(2)
+        if outs[0] != outs[1] or outs[0] != v['msg']:
+            # the case fails again when replayed, but not at the same point / not every time: the behaviour depends on
+            # something outside the recorded case (object addresses, an unseeded generator).  The unchanged library has no
+            # such dependence, so this is reported as a violation, marked unstable.
+            v = dict(v, msg=v['msg'] + '  [unstable replay: ' + ' / '.join(str(o) for o in outs) + ']')
         confirmed.append((path, v))
 
     meta = getattr(mod, 'META', {})
